@@ -42,6 +42,7 @@ type detail struct {
 
 type entry struct {
 	Name  string `json:"name"`
+	ID    uint32 `json:"id,omitempty"` // repository id reported by the (fake) shard; 0 = shard indexed without ids
 	Stats []int  `json:"stats"`
 }
 
@@ -375,6 +376,7 @@ func (rn *runner) searchList(rc *realCorpus, ctx []*q1q.Shard, q query.Q, viaDir
 		// Go oracle: each repository once; statistics summed over the per-shard lists of the original query
 		if loq, oerr := resolveTypeRepo(rc.single, q); oerr == nil {
 			want := map[string]zoekt.RepoStats{}
+			wantIDs, wantNoID := map[uint32]bool{}, map[string]bool{}
 			failed := false
 			for _, one := range rc.single {
 				l, err := listRepos(one, loq)
@@ -383,6 +385,11 @@ func (rn *runner) searchList(rc *realCorpus, ctx []*q1q.Shard, q query.Q, viaDir
 					break
 				}
 				for _, e := range l.Repos {
+					if e.Repository.ID != 0 {
+						wantIDs[e.Repository.ID] = true
+					} else {
+						wantNoID[e.Repository.Name] = true
+					}
 					st := want[e.Repository.Name]
 					st.Shards += e.Stats.Shards
 					st.Documents += e.Stats.Documents
@@ -414,12 +421,9 @@ func (rn *runner) searchList(rc *realCorpus, ctx []*q1q.Shard, q query.Q, viaDir
 				if rl.Stats.Repos != len(got) {
 					goVerdict = fmt.Sprintf("Stats.Repos = %d, %d repositories", rl.Stats.Repos, len(got))
 				}
-				// the ReposMap form of the same listing: the same repositories, by id, each once
+				// the ReposMap form of the same listing: the repositories with an id, by id, each once; those without an
+				// id (ID 0) stay in Repos, by name, each once — computed from the per-shard lists of the oracle
 				if goVerdict == "ok" {
-					ids := map[uint32]bool{}
-					for _, e := range rl.Repos {
-						ids[e.Repository.ID] = true
-					}
 					rm, err := func() (rl *zoekt.RepoList, err error) {
 						defer func() {
 							if r := recover(); r != nil {
@@ -431,12 +435,24 @@ func (rn *runner) searchList(rc *realCorpus, ctx []*q1q.Shard, q query.Q, viaDir
 					if err != nil {
 						goVerdict = "ReposMap listing failed: " + clean(err.Error())
 					} else {
-						if len(rm.ReposMap) != len(ids) || len(rm.Repos) != 0 || rm.Stats.Repos != len(ids) {
-							goVerdict = fmt.Sprintf("ReposMap listing: %d map entries, %d list entries, Stats.Repos=%d; Repos listing has %d repositories", len(rm.ReposMap), len(rm.Repos), rm.Stats.Repos, len(ids))
+						gotNoID := map[string]bool{}
+						for _, e := range rm.Repos {
+							if gotNoID[e.Repository.Name] {
+								goVerdict = "ReposMap listing: id-less repository listed twice: " + e.Repository.Name
+							}
+							gotNoID[e.Repository.Name] = true
+						}
+						if len(rm.ReposMap) != len(wantIDs) || len(gotNoID) != len(wantNoID) || rm.Stats.Repos != len(wantIDs)+len(wantNoID) {
+							goVerdict = fmt.Sprintf("ReposMap listing: %d map entries, %d id-less entries, Stats.Repos=%d; per-shard lists have %d ids and %d id-less repositories", len(rm.ReposMap), len(gotNoID), rm.Stats.Repos, len(wantIDs), len(wantNoID))
 						}
 						for id := range rm.ReposMap {
-							if !ids[id] {
-								goVerdict = fmt.Sprintf("ReposMap listing has repository id %d, Repos listing does not", id)
+							if !wantIDs[id] {
+								goVerdict = fmt.Sprintf("ReposMap listing has repository id %d, no shard lists it", id)
+							}
+						}
+						for n := range gotNoID {
+							if !wantNoID[n] {
+								goVerdict = fmt.Sprintf("ReposMap listing has id-less repository %s, no shard lists it", n)
 							}
 						}
 					}
@@ -541,7 +557,7 @@ func (f *fakeShard) Search(ctx context.Context, q query.Q, opts *zoekt.SearchOpt
 func (f *fakeShard) List(ctx context.Context, q query.Q, opts *zoekt.ListOptions) (*zoekt.RepoList, error) {
 	rl := &zoekt.RepoList{}
 	for _, e := range f.entries {
-		rl.Repos = append(rl.Repos, &zoekt.RepoListEntry{Repository: zoekt.Repository{Name: e.Name}, Stats: toStats(e.Stats)})
+		rl.Repos = append(rl.Repos, &zoekt.RepoListEntry{Repository: zoekt.Repository{Name: e.Name, ID: e.ID}, Stats: toStats(e.Stats)})
 		rl.Stats.Add(&rl.Repos[len(rl.Repos)-1].Stats)
 	}
 	rl.Stats.Repos = len(rl.Repos)
@@ -899,9 +915,24 @@ func main() {
 				for j := range st {
 					st[j] = r.Intn(50)
 				}
-				l = append(l, entry{Name: names[k], Stats: st})
+				// ids are drawn independently of the names: the same id under different names (a renamed repository
+				// whose old shard is still loaded, colliding ids), the same name under different ids, and id 0
+				l = append(l, entry{Name: names[k], ID: uint32(r.Intn(4)), Stats: st})
 			}
 			es = append(es, l)
+		}
+		byID := map[uint32]string{}
+		coll := false
+		for _, l := range es {
+			for _, e := range l {
+				if n, ok := byID[e.ID]; ok && n != e.Name && e.ID != 0 {
+					coll = true
+				}
+				byID[e.ID] = e.Name
+			}
+		}
+		if coll {
+			w.Count("agg:same-id-different-name", 1)
 		}
 		rn.agg(detail{Op: "agg", Entries: es})
 	}
@@ -940,6 +971,23 @@ func main() {
 				}
 			}
 			ctx = append(ctx, extra)
+		}
+		// repository identity: name and id are independent. Layouts in which they disagree between shards —
+		// the same id under another name (a renamed repository whose old shard is still loaded, colliding ids),
+		// the same name under another id, and a repository indexed without an id (ID 0).
+		{
+			src := ctx[r.Intn(len(ctx))].Repos[0]
+			switch i % 3 {
+			case 0:
+				ctx = append(ctx, q1q.RealShard(r, sg, []string{"renamed/" + src.Name}, []uint32{src.ID}, false, fmt.Sprintf("s%d/", len(ctx))))
+				w.Count("layout:same-id-different-name", 1)
+			case 1:
+				ctx = append(ctx, q1q.RealShard(r, sg, []string{src.Name}, []uint32{uint32(20 + r.Intn(3))}, false, fmt.Sprintf("s%d/", len(ctx))))
+				w.Count("layout:same-name-different-id", 1)
+			default:
+				ctx = append(ctx, q1q.RealShard(r, sg, []string{"noid/" + src.Name}, []uint32{0}, false, fmt.Sprintf("s%d/", len(ctx))))
+				w.Count("layout:id-0", 1)
+			}
 		}
 		viaDir := i%5 == 0
 		t0 := time.Now()
